@@ -461,6 +461,7 @@ structure FileSt where
   -- the property's view of the watched path: the file has not gone for good / a file is there
   idealOpen : Bool := true
   idealExists : Bool := true
+  away : Option (List Nat) := none           -- content of the file that was renamed away (it can be renamed back)
 
 structure St where
   mods : List (String × ModSt) := []
@@ -571,8 +572,12 @@ def fileOp (spec : Bool) (s : St) (arg : Option (List Nat)) (evs : List Nat → 
   | some f, some bytes =>
     -- op sequences that make no sense on a real path (they only arise while shrinking) are ill-formed
     let illFormed := (kind = "recreate" && f.src.content.isSome) || (kind = "giveup" && !f.src.rewatching)
-      || (kind = "write" && f.src.content.isNone)
+      || (kind = "write" && f.src.content.isNone) || (kind = "renameback" && (f.src.content.isSome || f.away.isNone))
     if illFormed then (s, some "bad-op") else
+    -- renaming the same file back is a re-creation with the content it had
+    let bytes := if kind = "renameback" then f.away.getD [] else bytes
+    let f := if kind = "rename" && f.src.content.isSome then { f with away := f.src.content }
+             else if kind = "renameback" then { f with away := none } else f
     let src' := (evs bytes).foldl (FileSrc.step (fileConv f.md) (goEqv f.md) f.md.mo []) f.src
     let ms := getMod s f.md.name
     let asisDies := kind = "replace" && !f.src.closed && !f.src.rewatching
@@ -623,6 +628,9 @@ def step (spec : Bool) (s : St) (ts : List String) (_line : String) : St × Opti
   | ["file.remove"] => fileOp spec s (some []) (fun _ => [.remove]) "remove"
   | ["file.rename"] => fileOp spec s (some []) (fun _ => [.renameAway]) "rename"
   | ["file.recreate", p] => fileOp spec s (payloadBytes p) (fun c => [.recreate c]) "recreate"
+  | ["file.renameback"] => fileOp spec s (some []) (fun c => [.recreate c]) "renameback"
+  | ["file.recreatep", p] => fileOp spec s (payloadBytes p) (fun c => [.recreate c]) "recreate"
+  | ["file.rewrite", p] => fileOp spec s (payloadBytes p) (fun c => [.write c, .proc]) "write"
   | ["file.giveup"] => fileOp spec s (some []) (fun _ => [.giveUp]) "giveup"
   | ["file.replace", p] => fileOp spec s (payloadBytes p) (fun c => [.replaceOver c]) "replace"
   | ["file.close"] => ({ s with file := none }, none)
